@@ -267,6 +267,14 @@ class Sym(Interp):
                 any(isinstance(x, tuple) and x and x[0] in ("tuple", "list") for x in (b[2], b[3])):
             # (x if c else (y, 0))[k]: the index goes into both alternatives - a display is taken apart, an opaque value indexed
             return self.mkphi(b[1], T(self.h_subscript(b[2], idx, n, env, ctx)), T(self.h_subscript(b[3], idx, n, env, ctx)))
+        ti = T(idx)
+        if isinstance(ti, tuple) and ti and ti[0] == "slice" and any(isinstance(x_, tuple) and len(x_) == 4 and x_[0] == "phi" for x_ in ti[1:4]):
+            # x[a : (b if c else None)] is (x[a:b] if c else x[a:]): a bound chosen by a condition selects between two slices
+            k_ = [k for k in (1, 2, 3) if isinstance(ti[k], tuple) and len(ti[k]) == 4 and ti[k][0] == "phi"][0]
+            ph = ti[k_]
+            s1 = ti[:k_] + (ph[2],) + ti[k_ + 1:]
+            s2 = ti[:k_] + (ph[3],) + ti[k_ + 1:]
+            return self.mkphi(ph[1], T(self.h_subscript(base, s1, n, env, ctx)), T(self.h_subscript(base, s2, n, env, ctx)))
         if b[0] == "elem" and isinstance(b[1], tuple) and len(b[1]) == 4 and b[1][0] == "ext" and b[1][1] in ("zip", "itertools.product") and not b[1][3] and is_const(T(idx)) and \
                 isinstance(T(idx)[1], int) and not isinstance(T(idx)[1], bool) and 0 <= T(idx)[1] < len(b[1][2]):
             # component k of the current tuple of zip(a, b, ...) / itertools.product(a, b, ...) is the current element of its k-th argument; whether the
